@@ -18,6 +18,7 @@ TRANSFORMS = [
     "X6 ghost text from the unit template is spliced in: named return, requires/ensures/decreases, loop invariants, ghost iterator names, proof blocks",
     "X7 `impl Trait` in argument position is kept; visibility qualifiers pub(crate)/pub(super) are rewritten to pub",
     "X9 assert_eq!(a, b) / debug_assert_eq!(a, b) -> assert!((a) == (b)) / debug_assert!((a) == (b)) (same panic condition; the formatted message, which needs Debug, is dropped)",
+    "X10 (directive //@closure) an inline closure `|x| expr` is given parameter and return types and a ghost contract: `|x: T| -> (r: U) ensures .. { expr }`; the body expression is verbatim",
     "X11 (directive //@deimpl, unit c19_map only) `f: impl Bound` in argument position -> `f: ImplN` with a generic parameter `ImplN: Bound` (the desugaring rustc performs; Verus 0.2026.09.13 crashes on `requires` over impl-Trait arguments of trait methods)",
     "X8 where Verus forbids `requires` on an impl of a std trait (Iterator::next), the extracted method body is checked as an impl of a local trait of the same shape declared in the unit (c10_earcut_glue: IteratorWithInvariant)",
 ]
@@ -409,8 +410,27 @@ def splice_fn(src, item, ann):
                 raise ExtractError('lost anchor: %s::%s: statement anchor %r #%d not found' % (src.rel, item.name, needle, nth))
             off = pos if where == 'before' else pos + len(nd)
             edits.append((off, '\n' + text.rstrip() + '\n'))
-    for off, text in sorted(edits, key=lambda e: -e[0]):
-        body = body[:off] + text + body[off:]
+    repls = []
+    for (nth, needle, params, ret, ctext) in ann.get('closures') or []:
+        # X10: an inline closure `|x| expr` gets its parameter / return types and a ghost contract:
+        #      `|x: T| -> (r: U) ensures .. { expr }` (the body expression is kept verbatim)
+        pos, cnt, st0 = -1, 0, 0
+        while True:
+            pos = body.find(needle, st0)
+            if pos < 0: break
+            cnt += 1
+            if cnt == nth: break
+            st0 = pos + 1
+        if pos < 0:
+            raise ExtractError('lost anchor: %s::%s: closure %r #%d not found' % (src.rel, item.name, needle, nth))
+        b1 = needle.find('|'); b2 = needle.find('|', b1 + 1)
+        if b1 < 0 or b2 < 0:
+            raise ExtractError('bad closure needle %r' % needle)
+        expr = needle[b2 + 1:].strip()
+        repls.append((pos, pos + len(needle), '|%s| -> (%s)\n%s\n{ %s }' % (params, ret, ctext.rstrip(), expr)))
+    allx = [(o, o, t) for (o, t) in edits] + repls
+    for a, b, text in sorted(allx, key=lambda e: (-e[0], -e[1])):
+        body = body[:a] + text + body[b:]
     body = transform_code(body)
     spec = ann.get('spec') or ''
     head = '// ---- extracted verbatim from %s:%d (sha256/16 %s) ----\n' % (src.rel, src.line_of(item.sig_start), src.sha)
